@@ -2,7 +2,8 @@ import EchoModel.Wire
 /-!
 # C19 — Proxy: balancers, retry loop, rewrite rules
 (middleware/proxy.go: commonBalancer.AddTarget/RemoveTarget, roundRobinBalancer.Next,
-randomBalancer.Next, ProxyWithConfig retry loop; middleware/middleware.go:
+randomBalancer.Next, Proxy / ProxyWithConfig (defaults, Skipper, TargetProvider, retry loop with
+RetryFilter / ErrorHandler), proxyRaw's dial/hijack order; middleware/middleware.go:
 rewriteRulesRegex / captureTokens / rewriteURL)
 
 What is modelled and how stdlib pieces are treated
@@ -26,6 +27,15 @@ What is modelled and how stdlib pieces are treated
   correspondence run.  `url.Parse`/`ResolveReference` of the rewritten string is the identity
   on the *clean* request targets used in the compared stream (absolute path, valid escapes,
   no dot segments, no fragment); other inputs are oracle-only in the harness.
+* round 4 — the configuration surface: `loopG` is the same loop with a custom `RetryFilter`
+  (any function of call number and error class), a `TargetProvider` balancer that may answer an
+  error (scripted per call), websocket attempts (`proxyRaw`: dial, then hijack — after the F21
+  fix) and response writers that cannot be hijacked; `Scenario.eff` is what `Proxy(balancer)` /
+  `ProxyWithConfig` put in force; a configured Skipper takes a request out before anything else.
+  Custom `ErrorHandler`, `ModifyResponse`, `Transport`, `ContextKey` have no behaviour of their own
+  in the loop (the handler is called once with `OutG.failed`'s error): harness oracle only.
+* request targets in absolute form (`GET http://host/path`): `matchInput` is lines 59-71 of
+  middleware.go after the F23 fix (cut after scheme and authority), on the raw `RequestURI`.
 * Go map iteration order (`for k, v := range rewriteRegex`): the model takes the rules as a
   list and applies the first match; `C19_rewrite_order_irrelevant` shows the order is
   irrelevant when at most one rule matches (the compared stream uses such rule sets).
@@ -286,41 +296,216 @@ def rewrite : List Rule → List Char → List Char
     | some u => u
     | none => rewrite rs uri
 
+/-! ## the configurable retry loop (round 4)
+
+`ProxyWithConfig` with everything a configuration can vary: a custom `RetryFilter`, a balancer
+that is a `TargetProvider` (and may answer an error instead of a target), websocket requests
+(`proxyRaw`: dial, then hijack — after the F21 fix), a response writer that cannot be hijacked.
+`proxyLoop` above is the special case "default filter, plain balancer, HTTP request"
+(`EchoProofs/C19Cfg.lean: C19_cfg_refines`). -/
+
+/-- what is stored under `_error` / returned by `NextTarget`: an `*echo.HTTPError` with a code,
+    or any other error value -/
+inductive Err where
+  | http (code : Nat)
+  | other
+deriving DecidableEq, Repr, Inhabited
+
+/-- the `RetryFilter` installed when `config.RetryFilter == nil`: retry exactly the 502s, whatever
+    the request (first argument: number of earlier filter calls for this request) -/
+def defaultFilter (_call : Nat) (e : Err) : Bool := e == .http 502
+
+structure EnvG where
+  rr : Bool
+  alive : Target → Bool
+  canceled : Bool
+  bodyOnce : Bool
+  /-- `c.IsWebSocket()`: the attempt goes through `proxyRaw` -/
+  ws : Bool
+  /-- `c.Response().Hijack()` works (a real `http.Server` connection; not a ResponseRecorder) -/
+  hijackable : Bool
+  /-- the balancer implements `TargetProvider` -/
+  provider : Bool
+  /-- error answered by the `k`-th `NextTarget` call of this request (if any) -/
+  provErr : Nat → Option Err
+  /-- `config.RetryFilter`, by number of earlier calls for this request and error -/
+  filter : Nat → Err → Bool
+
+/-- one attempt on target `t`: `none` = the upstream answered and its answer was relayed,
+    `some e` = `e` was left under `_error`.
+    * websocket (`proxyRaw`, fixed order): dial (fails for a dead target or a cancelled client
+      context → 502), then hijack (fails on a writer that is no `http.Hijacker` → plain error);
+    * HTTP (`proxyHTTP`): cancelled client → 499; dead target, or a body an earlier attempt
+      closed (F16) → 502. -/
+def attemptErr (env : EnvG) (closed : Bool) (t : Target) : Option Err :=
+  if env.ws then
+    if env.canceled || !env.alive t then some (.http 502)
+    else if !env.hijackable then some .other
+    else none
+  else if env.canceled then some (.http 499)
+  else if env.alive t && !(env.bodyOnce && closed) then none
+  else some (.http 502)
+
+inductive OutG where
+  | relayed (t : Target)     -- the upstream's answer went to the client; the loop returned nil
+  | failed (e : Err)         -- `config.ErrorHandler(c, e)` was called (exactly once, at the end)
+  | panic
+deriving DecidableEq, Repr, Inhabited
+
+structure LoopRes where
+  bal : Bal
+  last : Option Nat
+  /-- results of the `Next` calls, in order -/
+  picks : List Res
+  /-- the errors `config.RetryFilter` was called with, in order -/
+  fcalls : List Err
+  out : OutG
+deriving Repr, Inhabited
+
+/-- the `for` loop of `ProxyWithConfig`.  `retries` = the local variable; `closed` = an earlier
+    attempt closed the request body; `k` = `Next`/`NextTarget` calls made so far; `fc` = filter
+    calls made so far. -/
+def loopG (env : EnvG) : Nat → Bool → Nat → Nat → Bal → Option Nat → List (List Char) → LoopRes
+  | retries, closed, k, fc, b, last, hints =>
+    match (if env.provider then env.provErr k else none) with
+    | some e => ⟨b, last, [], [], .failed e⟩             -- `return config.ErrorHandler(c, err)`
+    | none =>
+      let (b', l', r) := nextOf env.rr b last hints.head?
+      match r with
+      | .pick .nil => ⟨b', l', [r], [], .failed (.http 502)⟩   -- F12 fix
+      | .pick (.tgt t) =>
+        match attemptErr env closed t with
+        | none => ⟨b', l', [r], [], .relayed t⟩
+        | some e =>
+          match retries with
+          | 0 => ⟨b', l', [r], [], .failed e⟩              -- `retries > 0 &&` : filter not consulted
+          | n + 1 =>
+            if env.filter fc e then
+              let R := loopG env n true (k + 1) (fc + 1) b' l' hints.tail
+              ⟨R.bal, R.last, r :: R.picks, e :: R.fcalls, R.out⟩
+            else ⟨b', l', [r], [e], .failed e⟩
+      | _ => ⟨b', l', [r], [], .panic⟩
+
+/-! ### `rewriteURL`: which string the rules are matched against -/
+
+/-- `rawURI[strings.Index(rawURI, "://")+3:]` (`none`: no `://`) -/
+def afterSchemeSep : List Char → Option (List Char)
+  | [] => none
+  | c :: r => if c == ':' && "//".toList.isPrefixOf r then some (r.drop 2) else afterSchemeSep r
+
+/-- `rest[strings.IndexAny(rest, "/?"):]`, the empty string when there is neither -/
+def fromPathStart : List Char → List Char
+  | [] => []
+  | c :: r => if c == '/' || c == '?' then c :: r else fromPathStart r
+
+/-- lines 59-71 of middleware.go (after the F23 fix): `req.RequestURI`, and when it does not start
+    with `/` (a request target in absolute form) the part after scheme and authority -/
+def matchInput (requestURI : List Char) : List Char :=
+  match requestURI with
+  | [] => []
+  | c :: _ =>
+    if c == '/' then requestURI
+    else
+      match afterSchemeSep requestURI with
+      | some rest => fromPathStart rest
+      | none => requestURI
+
+/-- first matching rule in iteration order -/
+def rewrite? : List Rule → List Char → Option (List Char)
+  | [], _ => none
+  | r :: rs, uri =>
+    match r.apply uri with
+    | some u => some u
+    | none => rewrite? rs uri
+
+/-- the request target the upstream sees: the result of the first rule that matches the match
+    input, else the unchanged path and query of the request URL -/
+def rewriteReq (rules : List Rule) (requestURI pathq : List Char) : List Char :=
+  (rewrite? rules (matchInput requestURI)).getD pathq
+
 /-! ## end-to-end scenarios -/
+
+/-- a `RetryFilter` the harness can install -/
+inductive FilterSpec where
+  | dflt                                        -- `nil`
+  | script (answers : List Bool) (rest : Bool)  -- answer of the k-th call, whatever the error
+  | codes (cs : List Nat)                       -- retry iff `*echo.HTTPError` with one of these codes
+deriving Repr, Inhabited
+
+def FilterSpec.fn : FilterSpec → Nat → Err → Bool
+  | .dflt => defaultFilter
+  | .script a r => fun k _ => a.getD k r
+  | .codes cs => fun _ e => match e with
+    | .http c => cs.contains c
+    | .other => false
+
+def FilterSpec.custom : FilterSpec → Bool
+  | .dflt => false
+  | _ => true
+
+structure ReqIn where
+  requestURI : List Char       -- `req.RequestURI` as sent
+  pathq : List Char            -- path and query of `req.URL`
+  canceled : Bool
+  bodyOnce : Bool
+  ws : Bool
+  hijackable : Bool
+  skip : Bool                  -- the configured Skipper answers true for this request
+  provErrs : List (Option Err) -- by `NextTarget` call
+  hints : List (List Char)
+deriving Repr, Inhabited
 
 inductive Step where
   | add (t : Target)
   | remove (name : List Char)
-  | request (uri : List Char) (canceled : Bool) (bodyOnce : Bool) (hints : List (List Char))
+  | request (q : ReqIn)
 deriving Repr, Inhabited
 
 structure Scenario where
   rr : Bool
+  /-- `true`: the middleware was made by `Proxy(balancer)` — `DefaultProxyConfig` with the
+      balancer, every other field of the configuration below is ignored -/
+  viaProxy : Bool
   retryCount : Nat
+  provider : Bool
+  filter : FilterSpec
+  skipper : Bool               -- a custom Skipper is configured
   init : List Target
   alive : List Bool          -- indexed by url id
   rules : List Rule
   steps : List Step
 deriving Repr, Inhabited
 
+/-- the configuration in force: `Proxy(b)` = `ProxyWithConfig(DefaultProxyConfig + b)` -/
+def Scenario.eff (sc : Scenario) : Scenario :=
+  if sc.viaProxy then { sc with retryCount := 0, filter := .dflt, skipper := false, rules := [] } else sc
+
 inductive StepObs where
   | bool (b : Bool)
-  | served (picks : List Res) (o : Outcome) (uri : List Char)
+  | skipped
+  | served (picks : List Res) (fcalls : Option (List Err)) (o : OutG) (uri : List Char)
 deriving Repr, Inhabited
 
 def aliveOf (alive : List Bool) (t : Target) : Bool := alive.getD t.url false
+
+def envOf (sc : Scenario) (q : ReqIn) : EnvG :=
+  { rr := sc.rr, alive := aliveOf sc.alive, canceled := q.canceled, bodyOnce := q.bodyOnce, ws := q.ws,
+    hijackable := q.hijackable, provider := sc.provider, provErr := fun k => (q.provErrs.getD k none),
+    filter := sc.eff.filter.fn }
 
 def runSteps (sc : Scenario) : Bal → List Step → List StepObs
   | _, [] => []
   | b, .add t :: ss => let (b', r) := addTarget b t; .bool r :: runSteps sc b' ss
   | b, .remove nm :: ss => let (b', r) := removeTarget b nm; .bool r :: runSteps sc b' ss
-  | b, .request uri canceled bodyOnce hints :: ss =>
-    -- a fresh echo context per request: no last index
-    let (b', _, picks, o) := proxyLoop ⟨sc.rr, aliveOf sc.alive, canceled, bodyOnce⟩ sc.retryCount false b none hints
-    let seen := match o with
-      | .relayed _ => rewrite sc.rules uri
-      | _ => []
-    .served picks o seen :: runSteps sc b' ss
+  | b, .request q :: ss =>
+    if sc.eff.skipper && q.skip then .skipped :: runSteps sc b ss     -- `return next(c)`
+    else
+      -- a fresh echo context per request: no last index
+      let R := loopG (envOf sc q) sc.eff.retryCount false 0 0 b none q.hints
+      let seen := match R.out with
+        | .relayed _ => rewriteReq sc.eff.rules q.requestURI q.pathq
+        | _ => []
+      .served R.picks (if sc.eff.filter.custom then some R.fcalls else none) R.out seen :: runSteps sc R.bal ss
 
 /-! ## wire -/
 open Wire
@@ -353,44 +538,77 @@ def pRule : P Rule := do
   let t ← str
   pure ⟨p, t⟩
 
+/-- `0` = plain error, `n` = `*echo.HTTPError` with code `n` -/
+def pErr : P Err := do
+  let c ← nat
+  pure (if c = 0 then .other else .http c)
+
+def encErr : Err → List String
+  | .http c => ["h" ++ toString c]
+  | .other => ["o"]
+
+def pFilter : P FilterSpec := do
+  let k ← nat
+  match k with
+  | 0 => pure .dflt
+  | 1 => do let a ← list bool; let r ← bool; pure (.script a r)
+  | 2 => do let cs ← list nat; pure (.codes cs)
+  | _ => failure
+
+def pReq : P ReqIn := do
+  let raw ← str
+  let pathq ← str
+  let c ← bool
+  let bo ← bool
+  let ws ← bool
+  let hj ← bool
+  let skip ← bool
+  let pe ← list (opt pErr)
+  let h ← list str
+  pure ⟨raw, pathq, c, bo, ws, hj, skip, pe, h⟩
+
 def pStep : P Step := do
   let k ← nat
   match k with
   | 0 => do let t ← pTarget; pure (.add t)
   | 1 => do let n ← str; pure (.remove n)
-  | 3 => do
-    let u ← str
-    let c ← bool
-    let bo ← bool
-    let h ← list str
-    pure (.request u c bo h)
+  | 3 => do let q ← pReq; pure (.request q)
   | _ => failure
 
-def outcomeCode : Outcome → String
-  | .noTarget => "0"
-  | .relayed _ => "1"
-  | .badGateway => "2"
-  | .clientClosed => "3"
-  | .panic => "4"
+def encOut : OutG → List String
+  | .relayed _ => ["1"]
+  | .failed e => "2" :: encErr e
+  | .panic => ["4"]
 
 def encStepObs : StepObs → List String
   | .bool b => [encBool b]
-  | .served picks o uri => encList encRes picks ++ [outcomeCode o, encStr uri]
+  | .skipped => ["5"]
+  | .served picks fcalls o uri =>
+    encList encRes picks ++ encOut o ++ [encStr uri] ++ encOpt (encList encErr) fcalls
 
 def pScenario : P Scenario := do
   let rr ← bool
+  let viaProxy ← bool
   let rc ← nat
+  let prov ← bool
+  let f ← pFilter
+  let sk ← bool
   let init ← list pTarget
   let alive ← list bool
   let rules ← list pRule
   let steps ← list pStep
-  pure ⟨rr, rc, init, alive, rules, steps⟩
+  pure ⟨rr, viaProxy, rc, prov, f, sk, init, alive, rules, steps⟩
 
 /-- lines:
     `0 rr ninit (name url)* nops op*`  →  results of the ops, flattened
        op = `0 name url` (AddTarget) | `1 name` (RemoveTarget) | `2 ctx (0 | 1 name)` (Next with context `ctx`)
-    `1 rr retryCount ninit (name url)* nalive alive* nrules (pat tmpl)* nsteps step*` → per step observation
-       step = `0 name url` | `1 name` | `3 uri canceled bodyOnce nhints name*`
+    `1 rr viaProxy retryCount provider filter skipper ninit (name url)* nalive alive* nrules (pat tmpl)* nsteps step*`
+       → per step observation
+       filter = `0` | `1 n answer* rest` | `2 n code*`
+       step = `0 name url` | `1 name` |
+              `3 requestURI pathq canceled bodyOnce ws hijackable skip nprov (0 | 1 err)* nhints name*`
+       observation of a request: `5` (skipped) |
+              `npicks pick* (1 | 2 err | 4) uri (0 | 1 ncalls err*)`     err = `h<code>` | `o`
     `2 pat tmpl uri` → `0` (no match) | `1 rewritten` -/
 def runLine (line : String) : String :=
   let p : P String := do
